@@ -125,3 +125,39 @@ let () =
       else if plain <> "ok:6869:3" then Diff ("plain dialer scenario failed in the harness: " ^ plain)
       else Pass true
     | _ -> Diff "malformed line")
+
+let () =
+  register "C02WR" (fun i o -> match i, o with
+    | [p; key; key2; _], [o1; o2] ->
+      let p = bytes_of_hex p in
+      if bytes_of_hex o1 <> Cipher.mask_spec p (bytes_of_hex key) BinNums.N0 then Viol "CipherWriter output differs from the one-shot mask"
+      else if bytes_of_hex o2 <> Cipher.mask_spec p (bytes_of_hex key2) BinNums.N0 then
+        Viol "CipherWriter after Reset does not restart the key stream at offset 0"
+      else Pass true
+    | _ -> Diff "malformed line");
+  register "C02FB" (fun i o -> match i, o with
+    | [name; _; _], [intact; inside] ->
+      if intact <> "1" then Viol ("copying helper " ^ name ^ " wrote into the caller's backing array beyond the payload")
+      else if inside = "1" then Viol ("copying helper " ^ name ^ " returns a payload that lives in the caller's buffer")
+      else Pass true
+    | _ -> Diff "malformed line");
+  register "WRF" (fun i o -> match i, o with
+    | [cfg; n; k], [m; _err; buffered; ferr; log] ->
+      let mi = int_of_string m in
+      let data = K_writer.pat_bytes (int_of_string n) 3 in
+      let accepted = K_reader.take_n mi data in
+      let log = bytes_list_of_tok log in
+      if mi > int_of_string k then Viol "ReadFrom reported more bytes than the source delivered"
+      else (match frames_of (List.concat log) with
+        | None -> Viol "ReadFrom+Flush: destination bytes are not whole frames"
+        | Some fs ->
+          let payload = List.concat (List.map pf_unmasked fs) in
+          let rec is_prefix a b = match a, b with [], _ -> true | x :: a', y :: b' -> x = y && is_prefix a' b' | _ -> false in
+          if not (is_prefix payload accepted) then Viol "ReadFrom sent bytes that are not the accepted ones"
+          else if int_of_string buffered > 0 && ferr = "nil" && payload <> accepted then
+            (* the source failed with bytes still buffered: a successful Flush must send them *)
+            Viol "bytes accepted by ReadFrom before its source failed were not sent by the following successful Flush"
+          else if int_of_string buffered > 0 && ferr = "nil" && not (List.nth fs (List.length fs - 1)).pf_header.h_fin then
+            Viol "Flush of buffered bytes did not end the message with a final frame"
+          else Pass (mi > 0))
+    | _ -> Diff "malformed line")
